@@ -233,7 +233,83 @@ func poolValues(k int, null bool) []Val {
 	return out
 }
 
+// Two different struct types that have the SAME Go name (each is local to its own function, like Account in
+// v1/models and v2/models): nothing may identify a struct type by its name.
+func c01localA() any {
+	type rec struct {
+		ID   string   `json:"id" api:"members"`
+		Name string   `json:"name" api:"attr"`
+		Refs []string `json:"refs" api:"rel,accounts"`
+	}
+	return &rec{ID: "m1", Name: "Ann", Refs: []string{"a2", "a1"}}
+}
+
+func c01localB() any {
+	type rec struct {
+		ID      string `json:"id" api:"accounts"`
+		Balance int64  `json:"balance" api:"attr"`
+		Owner   string `json:"owner" api:"rel,members"`
+	}
+	return &rec{ID: "a1", Balance: 1 << 40, Owner: "m1"}
+}
+
+func (m c01) sameNamedStructs(c *Ctx) {
+	c.Name = "same-named-struct-types"
+	for round := 0; round < 2; round++ {
+		objs := []any{c01localA(), c01localB()}
+		if round == 1 {
+			objs[0], objs[1] = objs[1], objs[0]
+		}
+		if pi := Guard(func() {
+			schema := &jsonapi.Schema{}
+			for _, o := range objs {
+				typ, err := jsonapi.BuildType(o)
+				if err != nil {
+					panic("harness: " + err.Error())
+				}
+				if err := schema.AddType(typ); err != nil {
+					panic("harness: " + err.Error())
+				}
+			}
+			for _, o := range objs {
+				src := jsonapi.Wrap(o)
+				fields := []string{}
+				for n := range src.Attrs() {
+					fields = append(fields, n)
+				}
+				for n := range src.Rels() {
+					fields = append(fields, n)
+				}
+				relData := map[string][]string{src.GetType().Name: fields}
+				out := jsonapi.MarshalResource(src, "/", fields, relData)
+				back, err := jsonapi.UnmarshalResource(out, schema)
+				c.Count("same_named_struct_roundtrips")
+				if err != nil {
+					c.Violate("roundtrip-error/same-named-structs", "%T (%s): %v; payload %s", o, src.GetType().Name, err, clip(string(out), 400))
+					return
+				}
+				a, b := snapshotRes(src), snapshotRes(back)
+				a.Vals, b.Vals = setVals(src), setVals(back)
+				if d := a.diff(b); d != "" {
+					c.Violate("value-changed/same-named-structs", "%T (%s) came back different: %s; payload %s", o, src.GetType().Name, d, clip(string(out), 400))
+					return
+				}
+			}
+		}); pi != nil {
+			c.Violate("panic@"+pi.Frame+"/"+panicClass(pi.Val)+"/same-named-structs", "%s", pi)
+			return
+		}
+	}
+}
+
+// setVals reads every field, to-many lists as sets.
+func setVals(res jsonapi.Resource) map[string]string {
+	s := setSnapshot(res)
+	return s.Vals
+}
+
 func (m c01) Directed(c *Ctx) {
+	m.sameNamedStructs(c)
 	c.Name = "pool-sweep"
 	for _, wrapped := range []bool{false, true} {
 		for _, k := range allKinds {
